@@ -128,6 +128,11 @@ Theorem guard_request_when_not_rewriting g : g_rewriting g = false ->
   gstep true g GRequest = mkguard true false (S (g_active g)) /\ gmark_of true g GRequest = [GStarted].
 Proof. intros H. unfold gstep, gmark_of, g_blocked. rewrite H. split; reflexivity. Qed.
 
+Theorem guard_request_spec g :
+  (g_rewriting g = true -> gstep true g GRequest = g /\ gmark_of true g GRequest = []) /\
+  (g_rewriting g = false -> gstep true g GRequest = mkguard true false (S (g_active g)) /\ gmark_of true g GRequest = [GStarted]).
+Proof. split; [apply guard_request_while_rewriting|apply guard_request_when_not_rewriting]. Qed.
+
 Lemma glog_alt evs : forall g, ginv g -> alternates (negb (g_rewriting g)) (glog true evs g) = true.
 Proof.
   induction evs as [|e tl IH]; intros g H; [reflexivity|].
@@ -397,11 +402,13 @@ Section Local.
   Variable fx : fixes.
   Variable bs : nat.
 
-  Theorem compact_steps_local d cur now : Forall (local_mut cur) (compact_steps has_lock fx bs false d cur now).
+  Variable fresh : bool.
+
+  Theorem compact_steps_local d cur now : Forall (local_mut cur) (compact_steps_v has_lock fx bs fresh false d cur now).
   Proof.
-    unfold compact_steps. cbn [run_steps fold_left app].
+    unfold compact_steps_v. cbn [run_steps fold_left app].
     destruct (rewrite_inputs d cur) as [[|f0 tl]|] eqn:E; try constructor.
-    destruct (build_tmp has_lock fx bs d (f0 :: tl) now) as [[a dd] ok].
+    destruct (build_tmp_v has_lock fx bs fresh d (f0 :: tl) now) as [[a dd] ok].
     assert (T : Forall (local_mut cur) [MPut FTmp a; MPut FTmpDat dd]).
     { repeat constructor; intros f [<-|[]]; reflexivity. }
     destruct ok; [|exact T].
@@ -416,14 +423,27 @@ Section Local.
   (* RewriteAofFile(true) = the rotation (under aofGlock, in the caller) followed by the compaction goroutine, which
      sees the directory after the rotation and the new index *)
   Lemma compact_steps_rotate d cur now :
-    compact_steps has_lock fx bs true d cur now =
+    compact_steps_v has_lock fx bs fresh true d cur now =
     [MPut (FAppend (cur + 1)) header; MPut (FAppendDat (cur + 1)) []] ++
-    compact_steps has_lock fx bs false (run_steps d [MPut (FAppend (cur + 1)) header; MPut (FAppendDat (cur + 1)) []]) (cur + 1) now.
+    compact_steps_v has_lock fx bs fresh false (run_steps d [MPut (FAppend (cur + 1)) header; MPut (FAppendDat (cur + 1)) []]) (cur + 1) now.
   Proof.
-    unfold compact_steps. cbn [app]. set (d1 := run_steps d _).
+    unfold compact_steps_v. cbn [app]. set (d1 := run_steps d _).
     change (run_steps d1 []) with d1.
     destruct (rewrite_inputs d1 (cur + 1)) as [[|f0 tl]|]; try reflexivity.
-    destruct (build_tmp has_lock fx bs d1 (f0 :: tl) now) as [[a dd] ok]. destruct ok; reflexivity.
+    destruct (build_tmp_v has_lock fx bs fresh d1 (f0 :: tl) now) as [[a dd] ok]. destruct ok; reflexivity.
+  Qed.
+
+  (* a directory without a left-over tmp pair: both variants do the same *)
+  Lemma compact_steps_no_stale_tmp rotate d cur now : dget d FTmp = None -> dget d FTmpDat = None ->
+    compact_steps_v has_lock fx bs true rotate d cur now = compact_steps_v has_lock fx bs false rotate d cur now.
+  Proof.
+    intros H1 H2. unfold compact_steps_v.
+    set (rot := if rotate then _ else _). set (d1 := run_steps d rot).
+    assert (E1 : dget d1 FTmp = None /\ dget d1 FTmpDat = None).
+    { unfold d1. split; (rewrite run_steps_frame; [assumption|]); intros m Hm; unfold rot in Hm; destruct rotate; cbn in Hm;
+        try tauto; destruct Hm as [<-|[<-|[]]]; cbn; intros [H|[]]; discriminate H. }
+    destruct (rewrite_inputs d1 _) as [[|f0 tl]|]; try reflexivity.
+    unfold build_tmp_v. destruct E1 as [-> ->]. reflexivity.
   Qed.
 End Local.
 
@@ -442,36 +462,50 @@ Qed.
    the rest of the server, (1) the directory is the one of the quiescent compaction with the appends on top, and
    (2) every crash image is a crash image of the quiescent compaction with a prefix of the appends on top, and a restart
    recovers the same from both *)
-Theorem busy_compaction has_lock fx bs rbs d cur now fs ms :
-  let cs := compact_steps has_lock fx bs false d cur now in
+Theorem busy_compaction has_lock fx bs fresh rbs d cur now fs ms :
+  let cs := compact_steps_v has_lock fx bs fresh false d cur now in
   Forall (fun f => foreign_mut cur f = true) fs -> merge cs fs ms ->
-  dir_equiv (run_steps d ms) (run_steps (compact has_lock fx bs false d cur now) fs) /\
+  dir_equiv (run_steps d ms) (run_steps (compact_v has_lock fx bs fresh false d cur now) fs) /\
   dir_equiv (run_steps d ms) (run_steps (run_steps d fs) cs) /\
   forall n, exists k j,
-    dir_equiv (run_steps d (firstn n ms)) (run_steps (crash_after has_lock fx bs false d cur now k) (firstn j fs)) /\
+    dir_equiv (run_steps d (firstn n ms)) (run_steps (crash_after_v has_lock fx bs fresh false d cur now k) (firstn j fs)) /\
     forall rnow, recover fx rbs (run_steps d (firstn n ms)) rnow
-                 = recover fx rbs (run_steps (crash_after has_lock fx bs false d cur now k) (firstn j fs)) rnow.
+                 = recover fx rbs (run_steps (crash_after_v has_lock fx bs fresh false d cur now k) (firstn j fs)) rnow.
 Proof.
   intros cs F M.
   assert (D : forall l r, (forall c, In c l -> In c cs) -> (forall f, In f r -> In f fs) ->
                           forall c f, In c l -> In f r -> disjoint_mut c f).
   { intros l r Hl Hr c f Hc Hf. apply (local_foreign_disjoint cur).
-    - pose proof (compact_steps_local has_lock fx bs d cur now) as L. rewrite Forall_forall in L. apply L, Hl, Hc.
+    - pose proof (compact_steps_local has_lock fx bs fresh d cur now) as L. rewrite Forall_forall in L. apply L, Hl, Hc.
     - rewrite Forall_forall in F. apply F, Hr, Hf. }
   split; [|split].
   - apply (merge_commutes cs fs ms M). apply (D cs fs); auto.
   - apply (merge_commutes' cs fs ms M). apply (D cs fs); auto.
   - intros n. destruct (merge_prefix cs fs ms M n) as (k & j & Mp). exists k, j.
-    assert (E : dir_equiv (run_steps d (firstn n ms)) (run_steps (crash_after has_lock fx bs false d cur now k) (firstn j fs))).
+    assert (E : dir_equiv (run_steps d (firstn n ms)) (run_steps (crash_after_v has_lock fx bs fresh false d cur now k) (firstn j fs))).
     { apply (merge_commutes _ _ _ Mp). apply D; intros x Hx; eapply in_firstn; exact Hx. }
     split; [exact E|]. intros rnow. apply recover_equiv, E.
 Qed.
 
 (* the files outside the footprint are never changed by the compaction: the current append file keeps what was appended *)
-Theorem compaction_frame has_lock fx bs d cur now k f : local_file cur f = false ->
-  dget (crash_after has_lock fx bs false d cur now k) f = dget d f.
+Theorem compaction_frame has_lock fx bs fresh d cur now k f : local_file cur f = false ->
+  dget (crash_after_v has_lock fx bs fresh false d cur now k) f = dget d f.
 Proof.
-  intros H. unfold crash_after. apply run_steps_frame. intros m Hm Hf.
-  pose proof (compact_steps_local has_lock fx bs d cur now) as L. rewrite Forall_forall in L.
+  intros H. unfold crash_after_v. apply run_steps_frame. intros m Hm Hf.
+  pose proof (compact_steps_local has_lock fx bs fresh d cur now) as L. rewrite Forall_forall in L.
   specialize (L m (in_firstn _ _ _ Hm) f Hf). rewrite L in H. discriminate.
+Qed.
+
+(* appends during the rewrite go to a file that is not among the inputs; the compaction goroutine stays inside its footprint *)
+Theorem appends_avoid_inputs has_lock fx bs fresh d cur now :
+  (forall l i, rewrite_inputs d cur = Some l -> cur <= i -> ~ In (FAppend i) l /\ ~ In (FAppendDat i) (map dat_of l)) /\
+  Forall (local_mut cur) (compact_steps_v has_lock fx bs fresh false d cur now) /\
+  (forall k f, local_file cur f = false -> dget (crash_after_v has_lock fx bs fresh false d cur now k) f = dget d f) /\
+  compact_steps_v has_lock fx bs fresh true d cur now =
+    [MPut (FAppend (cur + 1)) header; MPut (FAppendDat (cur + 1)) []] ++
+    compact_steps_v has_lock fx bs fresh false (run_steps d [MPut (FAppend (cur + 1)) header; MPut (FAppendDat (cur + 1)) []]) (cur + 1) now.
+Proof.
+  split; [intros l i; apply rewrite_inputs_exclude_current|].
+  split; [apply compact_steps_local|].
+  split; [intros k f; apply compaction_frame|apply compact_steps_rotate].
 Qed.
